@@ -101,6 +101,12 @@ namespace BitSerializer
 			KeyValueProxy::SplitAndSerialize(archive, std::forward<T>(object));
 			archive.Finalize();
 			context.OnFinishSerialization();
+			// The archives write through the stream without looking at its state: a stream that refused the data
+			// (failbit / badbit, exceptions not enabled) must not look like a successful save
+			if (output.fail())
+			{
+				throw SerializationException(SerializationErrorCode::InputOutputError, "The output stream is in a failed state, the data was not (completely) written");
+			}
 		}
 	}
 
